@@ -378,8 +378,8 @@ fn op_strategy(tier: Tier) -> BoxedStrategy<Op> {
         4 => 1u32..=130,
         3 => crate::gen::select(vec![1u32, 16, 31, 32, 33, 63, 64, 65, 96, 127, 128, 129, 192, 1023, 1024, 1025, 1088, 2048]),
         3 => 0u32..=maxn,
-        // long reads: many iterations of the widest xof_many loop in one call
-        1 => 0u32..=tier.pick(300_000u32, 5_000_000u32),
+        // long reads: many iterations of the widest xof_many loop in one call; now and then more than 4 MiB (2^16 blocks) at once
+        1 => prop_oneof![200 => 0u32..=tier.pick(300_000u32, 5_000_000u32), 1 => 4_194_000u32..=9_000_000],
     ];
     prop_oneof![
         6 => n.clone().prop_map(Op::Fill),
